@@ -1376,8 +1376,23 @@ impl Peers {
     ) -> Result<(), Status> {
         if let Some(mut peer) = self.inner.get_mut(&index) {
             let has_reorg = !state.reorg_last_headers.is_empty();
+            // The cached block filter hashes of the peer describe the chain of its previous prove
+            // state: they are kept only if the new chain visibly extends that chain (a shallow
+            // reorganization may be proved without any reorg headers).
+            let extends_previous = peer
+                .state
+                .get_prove_state()
+                .map(|previous| {
+                    let previous_hash = previous.get_last_header().header().hash();
+                    state.get_last_header().header().hash() == previous_hash
+                        || state
+                            .get_last_headers()
+                            .iter()
+                            .any(|header| header.hash() == previous_hash)
+                })
+                .unwrap_or(true);
             peer.state = peer.state.take().receive_last_state_proof(state)?;
-            if has_reorg {
+            if has_reorg || !extends_previous {
                 peer.latest_block_filter_hashes.clear();
             }
         }
